@@ -113,10 +113,23 @@ def ref_b2a(y, oshape, B, S):
 
 
 # ---------------------------------------------------------------- generators
+_CONV = [None]     # element-value stream: when set, the labelled integers are mapped to another element type / value
+
+
 def labelled(rng, shape):
     n = int(np.prod(shape))
     base = rng.randrange(1, 50)
-    return (np.arange(n, dtype=np.int64) * rng.choice([1, 3, 7]) + base).reshape(shape)
+    a = (np.arange(n, dtype=np.int64) * rng.choice([1, 3, 7]) + base).reshape(shape)
+    return a if _CONV[0] is None else _CONV[0](a)
+
+
+# "all element values": the same cases with complex / single-precision / negative / boolean-like elements (exactly representable)
+VALUE_KINDS = [
+    ("complex128", lambda a: a * (1 + 2j)),
+    ("complex64", lambda a: (a * (1 - 1j)).astype(np.complex64)),
+    ("float32", lambda a: (-a).astype(np.float32)),
+    ("float64", lambda a: a / 4.0),
+]
 
 
 def gen_resize(rng):
@@ -315,6 +328,27 @@ def run(ctx):
         done.append(dict(case=c, x=x, y=y, ref=ref, expr=expr))
     # (a) implementation vs the documented closed form (oracle; also the source of failing inputs)
     bad_oracle = [d for d in done if d["y"].shape != d["ref"].shape or not np.array_equal(d["y"], d["ref"])]
+    # (a') the same closed form on other element types (the Coq correspondence runs on the integer labels)
+    import random as _random
+    nval = 0
+    for k, c in enumerate(cases):
+        kind, conv = VALUE_KINDS[k % len(VALUE_KINDS)]
+        _CONV[0] = conv
+        try:
+            r = run_case(sp, _random.Random(k), c)
+        except Exception as e:
+            ctx.violation("%s raised %s on a valid %s input" % (c["op"], type(e).__name__, kind),
+                          {"kind": "impl-exception", "case": c, "dtype": kind, "error": repr(e)}, signature="C09:exception:%s:%s" % (c["op"], kind))
+            continue
+        finally:
+            _CONV[0] = None
+        if r is None:
+            continue
+        x, y, ref, _ = r
+        nval += 1
+        ctx.count("values:" + kind, key=json.dumps(c, sort_keys=True) + kind, nontrivial=nontrivial(c, x, y))
+        if y.shape != ref.shape or not np.array_equal(y, ref):
+            bad_oracle.append(dict(case=dict(c, element_type=kind), x=x, y=y, ref=ref, expr=None))
     # (b) implementation vs the Coq model
     failing = []
     corr_ok = True
@@ -330,7 +364,8 @@ def run(ctx):
     ctx.obligation("oracle:impl==closed-form (%d cases)" % len(done), not bad_oracle)
     ctx.coverage["rule"] = ("seeded generator over 7 functions (resize incl. same-shape/rank-change/explicit shifts, flip, circshift "
                             "incl. negative and >n shifts and negative/repeated axes, down/upsample with shifts, blocks 1-3-D with "
-                            "overlap/tile/gap/non-dividing strides and 0-2 batch dims) on labelled integer arrays; "
+                            "overlap/tile/gap/non-dividing strides and 0-2 batch dims) on labelled integer arrays (Coq correspondence) and, for the closed-form "
+                            "oracle, also on complex128 / complex64 / float32 / float64 element values; "
                             "a case is non-trivial when the array has >1 element and the output differs from the input; "
                             "distinct = distinct parameter tuples")
     ctx.coverage["disagreements_model_vs_impl"] = len(failing)
@@ -339,13 +374,13 @@ def run(ctx):
     for d in bad_oracle:
         c = d["case"]
         sig = "C09:%s:%s" % (c["op"], json.dumps(c, sort_keys=True))
-        cls = classify(c)
+        cls = classify(c) + (":" + c["element_type"] if c.get("element_type") else "")
         if cls in reported:
             continue
         reported.add(cls)
         ctx.violation("%s moves the wrong elements (%s)" % (c["op"], cls),
-                      {"kind": "oracle", "case": c, "input": d["x"].tolist(), "observed": d["y"].tolist(),
-                       "expected": d["ref"].tolist()}, signature="C09:" + cls)
+                      {"kind": "oracle", "case": c, "input": jl(d["x"]), "observed": jl(d["y"]),
+                       "expected": jl(d["ref"])}, signature="C09:" + cls)
     for i in failing:
         d = done[i]
         c = d["case"]
@@ -370,6 +405,14 @@ def run(ctx):
     ctx.validated_only += VALIDATED
 
 
+def jl(a):
+    """JSON-able nested list (complex entries as [re, im])"""
+    a = np.asarray(a)
+    if np.iscomplexobj(a):
+        return np.stack([a.real, a.imag], axis=-1).tolist()
+    return a.tolist()
+
+
 def classify(c):
     op = c["op"]
     if op == "resize":
@@ -385,10 +428,14 @@ def replay(obj):
     sp = core.import_sigpy()
     import random
     c = obj["case"]
-    r = run_case(sp, random.Random(0), c)
+    _CONV[0] = dict(VALUE_KINDS).get(c.get("element_type"))
+    try:
+        r = run_case(sp, random.Random(0), c)
+    finally:
+        _CONV[0] = None
     x, y, ref, _ = r
     ok = y.shape == ref.shape and np.array_equal(y, ref)
-    print("case", c, "\ninput", x.tolist(), "\nobserved", y.tolist(), "\nexpected", ref.tolist(), "\nagree:", ok)
+    print("case", c, "\ninput", jl(x), "\nobserved", jl(y), "\nexpected", jl(ref), "\nagree:", ok)
     return 0 if ok else 1
 
 
